@@ -292,6 +292,9 @@ func fmtEvents(evs []abci.Event) string {
 func (w *World) NewEnvB() *EnvB {
 	e := &EnvB{w: w, txCfg: app.MakeEncodingConfig().TxConfig}
 	e.height = w.App.LastBlockHeight() + 1
+	if w.Cfg.FirstBlockIsInitial {
+		e.height = maxI64(1, w.Cfg.StartHeight)
+	}
 	e.time = FirstBlockTime
 	res := w.App.BeginBlock(w.BeginReq(w.Header(e.height, e.time)))
 	e.lastBlockEvents = res.Events
